@@ -247,6 +247,12 @@ func randomVars(t *tape.Tape, names []string) map[string]interface{} {
 }
 
 var c03Adversarial = []string{
+	// an inline fragment whose "on" is not followed by a type name
+	"{...on{title}}",
+	"{ ... on @skip(if: true) { title } }",
+	"{ ... on }",
+	"{ keepers { ... on",
+	"{ keepers { ... on { name } ... on Keeper { name } } }",
 	// a fragment that includes itself more than once: two to the power of the
 	// depth limit steps unless the cycle is refused
 	"{ ...F } fragment F on Query { title ...F ...F }",
@@ -345,7 +351,21 @@ var c03Adversarial = []string{
 	"query($v: [[Int]]) { nums @skip(if: $v) }",
 }
 
+// layeredDirectives is a loop-free directive graph with sharing at every layer:
+// @d0(a: Int @d1, b: Int @d1), @d1(a: Int @d2, b: Int @d2), ... (a loop check
+// that forgets what it has visited takes two to the power of n steps)
+func layeredDirectives(n int) string {
+	var b strings.Builder
+	for i := 0; i < n; i++ {
+		fmt.Fprintf(&b, "directive @d%d(a: Int @d%d, b: Int @d%d) on ARGUMENT_DEFINITION\n", i, i+1, i+1)
+	}
+	fmt.Fprintf(&b, "directive @d%d on ARGUMENT_DEFINITION\ntype Query { f(x: Int @d0): Int }\n", n)
+	return b.String()
+}
+
 var c03AdversarialSDL = []string{
+	layeredDirectives(5),
+	layeredDirectives(48),
 	"union U = []", "union U = [[]]", "union U = | ", "union U", "union U =", "union U = !", "union U @d = Query",
 	"type T { a: [] }", "type T { a: [!] }", "type T { a: ! }", "type T { a: [Int }", "type T { a: Int! ! }", "type T { a(b: []): Int }",
 	"type T { a(b: Int = ): Int }", "type T { a(b: Int = [): Int }", "type T { a(b: Int = {x: ): Int }", "type T { a(: Int): Int }",
@@ -678,6 +698,22 @@ func (c C03) Run(t *tape.Tape, opt core.RunOpt) (res core.Result) {
 						res.Count("fault_writer_error", 1)
 					}
 				}
+			}
+		}
+		// deeply nested values (a response to a deeply nested request, a big
+		// literal): depth times indent grows past any fixed pad
+		for _, depth := range []int{10, 20, 33, 40, 70, 130} {
+			var dv interface{} = 1
+			for i := 0; i < depth; i++ {
+				if (i+depth)%3 == 0 {
+					dv = map[string]interface{}{"k": dv}
+				} else {
+					dv = []interface{}{dv}
+				}
+			}
+			for _, indent := range []int{1, 2, 4, 8} {
+				ctx.guard("WriteJSONValue", fmt.Sprintf("value nested %d deep, indent %d", depth, indent), "", func() { var w iosim.Writer; _ = ggql.WriteJSONValue(&w, dv, indent) })
+				ctx.guard("WriteSDLValue", fmt.Sprintf("value nested %d deep, indent %d", depth, indent), "", func() { var w iosim.Writer; _ = ggql.WriteSDLValue(&w, dv, indent) })
 			}
 		}
 	case 6: // sampled input half: adversarial requests, no faults
